@@ -53,7 +53,7 @@ def conformance(c, b, tier):
 
 def run(tier):
     c = vlib.Check("C04", tier, "model_checking", RULE, "sched_mpi")
-    c.deadline = 170 if tier == "quick" else 1700
+    c.deadline = 170 if tier == "quick" else 4200
     c.assumptions = ["collectives have their MPI-standard meaning; the only freedom is the combination order of a reduction whose operator is declared commutative (enumerated)",
                      "ranks share no memory, so interleaving between collectives is irrelevant; thorough tier re-runs every execution under the reversed baton order and requires identical observations",
                      "heap layout = relative address order of the edge-list nodes of each rank's graph (the only addresses parmcb orders by); set through a slab allocator and asserted",
@@ -62,8 +62,8 @@ def run(tier):
     c.builds_done()
     conformance(c, b, tier)
     ex = b["sched_mpi"]
-    if tier == "quick":
-        plan = [("G(0..3) x A2, P in {1,2,3}, layouts {id,rev}, bound 1", [["--n", n, "--alpha", "A2", "--P", "1,2,3", "--bound", 1] for n in range(0, 4)]),
+    def quick_rows():
+        return [("G(0..3) x A2, P in {1,2,3}, layouts {id,rev}, bound 1", [["--n", n, "--alpha", "A2", "--P", "1,2,3", "--bound", 1] for n in range(0, 4)]),
                 ("G(4) x A2, P in {1,2,3}, layouts {id,rev}, bound 1", [["--n", 4, "--alpha", "A2", "--P", "1,2,3", "--bound", 1]]),
                 ("G(4) x A2 with reversed edge orientation, P in {2,3}, bound 1", [["--n", 4, "--alpha", "A2", "--P", "2,3", "--bound", 1, "--orient", 1]]),
                 ("G(4) x A2 with reversed / interleaved edge insertion order, P in {2,3}, bound 1", [["--n", 4, "--alpha", "A2", "--P", "2,3", "--bound", 1, "--eorder", o] for o in (1, 2)]),
@@ -79,23 +79,36 @@ def run(tier):
                 ("G(4) x A2 plus one more component = a single edge weighing 2^60, P in {2,3}, bound 1", [["--n", 4, "--alpha", "A2", "--plus-heavy-k2", "--P", "2,3", "--bound", 1]]),
                 ("K6 x A2 (32768 weightings; dense branch |S| >= n, ranks with empty slices), mcb_sva_signed_mpi, P=4, default outcome",
                  [["--families", "K:6", "--alpha", "A2", "--P", "4", "--variants", "signed_mpi", "--bound", 0, "--wchunks", 64, "--outcome-bound", 0]])]
-    else:
-        plan = [("G(5) with 4..8 edges x PM2 and x PM (all assignments of distinct weights), all entry points, P in {2,3,4}, default schedule",
-                 [["--n", 5, "--alpha", a, "--min-m", 4, "--max-m", 8, "--P", "2,3,4", "--bound", 0, "--outcome-bound", 0] for a in ("PM2", "PM")]),
-                ("G(5) with 5..8 edges x A3, mcb_sva_signed_mpi, P in {2,3}, default schedule", [["--n", 5, "--alpha", "A3", "--min-m", 5, "--max-m", 8, "--P", "2,3", "--bound", 0, "--variants", "signed_mpi", "--outcome-bound", 0]]),
+    plan = quick_rows()
+    if tier != "quick":
+        # thorough = the quick rows + deeper rows; every deeper row carries its own budget (about twice its measured cost on a
+        # loaded machine) so that a row that turns out heavier is reported as capped instead of starving the rows after it
+        plan = quick_rows() + [
+                ("G(5) with 5..7 edges x PM2, all entry points, P in {2,3}, default schedule", [["--n", 5, "--alpha", "PM2", "--min-m", 5, "--max-m", 7, "--P", "2,3", "--bound", 0, "--outcome-bound", 0]], 400),
+                ("G(5) with 5..7 edges x PM and G(5) with 5..8 edges x A3, mcb_sva_signed_mpi, P in {2,3}, default schedule",
+                 [["--n", 5, "--alpha", "PM", "--min-m", 5, "--max-m", 7, "--P", "2,3", "--bound", 0, "--outcome-bound", 0, "--variants", "signed_mpi"],
+                  ["--n", 5, "--alpha", "A3", "--min-m", 5, "--max-m", 8, "--P", "2,3", "--bound", 0, "--variants", "signed_mpi", "--outcome-bound", 0]], 120),
                 ("G(0..4) x A2, P in {1,2,3,4}, all layouts m<=4 / id,rev,adjacent transpositions, bound 2, both baton orders",
-                 [["--n", n, "--alpha", "A2", "--P", "1,2,3,4", "--bound", 2, "--layouts", 1, "--baton-rev"] for n in range(0, 5)]),
-                ("G(4) x A3, P in {2,3}, bound 1", [["--n", 4, "--alpha", "A3", "--P", "2,3", "--bound", 1]]),
-                ("G(4) x U, P in {5,7}, bound 2", [["--n", 4, "--alpha", "U", "--P", "5,7", "--bound", 2]]),
-                ("G(5) x U, P in {2,3,4,5}, bound 1", [["--n", 5, "--alpha", "U", "--P", "2,3,4,5", "--bound", 1]]),
-                ("G(5) x A2, dim>=2, P in {2,3,4,5}, bound 1, at most one non-default reduce outcome", [["--n", 5, "--alpha", "A2", "--P", "2,3,4,5", "--bound", 1, "--min-dim", 2, "--outcome-bound", 1]]),
-                ("K6, K7, wheel:5, prism:3, K3,3 unit, P in {2,3,5,7}, bound 1", [["--families", "K:6,K:7,wheel:5,prism:3,Kb:3:3", "--alpha", "U", "--P", "2,3,5,7", "--bound", 1, "--outcome-bound", 1]]),
-                ("K6 x A2, all entry points, P in {4,5}, default schedule, at most one non-default reduce outcome",
-                 [["--families", "K:6", "--alpha", "A2", "--P", "4,5", "--bound", 0, "--wchunks", 64, "--outcome-bound", 1]]),
-                ("G(6) x A2, dim >= 8, mcb_sva_signed_mpi, P in {3,4,5}, default outcome", [["--n", 6, "--alpha", "A2", "--min-dim", 8, "--P", "3,4,5", "--variants", "signed_mpi", "--bound", 0, "--wchunks", 16, "--outcome-bound", 0]])]
-    for bound, arglists in plan:
+                 [["--n", n, "--alpha", "A2", "--P", "1,2,3,4", "--bound", 2, "--layouts", 1, "--baton-rev"] for n in range(0, 5)], 1000),
+                ("G(4) x A3, P in {2,3}, bound 1", [["--n", 4, "--alpha", "A3", "--P", "2,3", "--bound", 1]], 120),
+                ("G(4) x U, P in {5,7}, bound 2", [["--n", 4, "--alpha", "U", "--P", "5,7", "--bound", 2]], 200),
+                ("G(5) x U, P in {2,3,4,5}, bound 1", [["--n", 5, "--alpha", "U", "--P", "2,3,4,5", "--bound", 1]], 400),
+                ("G(5) x A2, dim>=2, P in {2,3}, bound 1, at most one non-default reduce outcome", [["--n", 5, "--alpha", "A2", "--P", "2,3", "--bound", 1, "--min-dim", 2, "--outcome-bound", 1]], 900),
+                ("K6, wheel:5, prism:3, K3,3 unit, P in {2,3,5,7}, bound 1, at most one non-default reduce outcome; K7 unit, P in {2,3,5,7}, default schedule",
+                 [["--families", "K:6,wheel:5,prism:3,Kb:3:3", "--alpha", "U", "--P", "2,3,5,7", "--bound", 1, "--outcome-bound", 1],
+                  ["--families", "K:7", "--alpha", "U", "--P", "2,3,5,7", "--bound", 0, "--outcome-bound", 0]], 400),
+                ("K6 x A2, all entry points, P in {4,5}, default schedule, default reduce outcome",
+                 [["--families", "K:6", "--alpha", "A2", "--P", "4,5", "--bound", 0, "--wchunks", 64, "--outcome-bound", 0]], 500),
+                ("G(6) x A2, dim >= 8, mcb_sva_signed_mpi, P in {3,4,5}, default outcome", [["--n", 6, "--alpha", "A2", "--min-dim", 8, "--P", "3,4,5", "--variants", "signed_mpi", "--bound", 0, "--wchunks", 16, "--outcome-bound", 0]], 600)]
+    for row in plan:
+        bound, arglists = row[0], row[1]
+        budget = row[2] if len(row) > 2 else None
+        t_row = vlib.time.time()
         for args in arglists:
-            r = vlib.run_harness(ex, list(args) + ["--seed", vlib.seed(), "--deadline-s", int(c.remaining(20))])
+            dl = c.remaining(20)
+            if budget is not None:
+                dl = max(20, min(dl, budget - (vlib.time.time() - t_row)))
+            r = vlib.run_harness(ex, list(args) + ["--seed", vlib.seed(), "--deadline-s", int(dl)])
             c.add_run(r, bound + " :: " + r["args"], None, replay={"harness": "sched_mpi"})
             for k in ("reduce_max_outcomes", "inputs_hitting_execution_cap", "deadlock_states"):
                 c.extra[k] = max(c.extra.get(k, 0), r.get(k, 0))
